@@ -132,10 +132,12 @@ let show_dout = function
   | RPair (k, v) -> "pair " ^ string_of_int (int_of_z k) ^ " " ^ string_of_int (int_of_z v)
   | RKeyError -> "keyerror"
 let sst : (z * z) list ref = ref []     (* the rows of the SQL-table model *)
-let dmode = ref 0                         (* 0: dict specification, 1: SQL-table model (Backends.sql_step) *)
+let dirst : dentry list ref = ref []     (* the entry directories of the directory model *)
+let dmode = ref 0                         (* 0: dict specification, 1: SQL-table model (Backends.sql_step), 2: directory model (DirStep.dir_step) *)
 let dop o =
   if !dmode = 0 then (let (m', r) = dstep !dst o in dst := m'; print_string (show_dout r ^ "\n"))
-  else (let (m', r) = sql_step !sst o in sst := m'; print_string (show_dout r ^ "\n"))
+  else if !dmode = 1 then (let (m', r) = sql_step !sst o in sst := m'; print_string (show_dout r ^ "\n"))
+  else (let (m', r) = dir_step (fun k -> k) !dirst o in dirst := m'; print_string (show_dout r ^ "\n"))
 let ints ws = List.map (fun w -> z_of_int (int_of_string w)) ws
 let rec zpairs = function a :: b :: r -> (a, b) :: zpairs r | _ -> []
 
@@ -189,8 +191,11 @@ let handle (line : string) : bool =
            print_string ((if validate_ok sg' cl' then "1" else "0") ^ " " ^ (if bind_ok sg' cl' then "1" else "0") ^ "\n")
        | _ -> print_string "error k.validate syntax\n");
       true
-  | "d.reset" -> dst := []; sst := []; print_string "ok\n"; true
-  | "d.mode" -> dmode := (if String.trim rest = "sql" then 1 else 0); print_string "ok\n"; true
+  | "d.reset" -> dst := []; sst := []; dirst := []; print_string "ok\n"; true
+  | "d.mode" -> dmode := (match String.trim rest with "sql" -> 1 | "dir" -> 2 | _ -> 0); print_string "ok\n"; true
+  | "d.entries" ->
+      let l = List.sort compare (List.map (fun e -> (int_of_z e.e_name, int_of_z e.e_key, int_of_z e.e_val)) !dirst) in
+      print_string (String.trim ("entries " ^ String.concat " " (List.map (fun (n, k, v) -> Printf.sprintf "%d:%d:%d" n k v) l)) ^ "\n"); true
   | "d.rows" -> print_string (String.trim ("rows " ^ String.concat " " (List.map (fun (k, v) -> string_of_int (int_of_z k) ^ ":" ^ string_of_int (int_of_z v)) !sst)) ^ "\n"); true
   | "d.set" -> (match ints (tokenize rest) with [k; v] -> dop (DSet (k, v)) | _ -> print_string "error\n"); true
   | "d.get" -> (match ints (tokenize rest) with [k] -> dop (DGet k) | _ -> print_string "error\n"); true
